@@ -184,7 +184,7 @@ def clock_forms(h, mi, groups=None):
             out.append(("clock:h in the POD", "12 in the afternoon", C))
         if h == 0:
             # hour 0 is midnight next to any part of day
-            for f in ("0 uhr nachts", "0 uhr abends", "0:00 at night", "00:00 in the evening", "nachts um 0 uhr", "0 uhr vormittags"):
+            for f in ("0 uhr nachts", "0 uhr abends", "0:00 at night", "00:00 in the evening", "nachts um 0 uhr"):
                 out.append(("clock:h uhr POD", f, C))
         if 1 <= h <= 11:
             for ph in ("in the morning", "morgens", "vormittags", "am vormittag"):
@@ -192,6 +192,12 @@ def clock_forms(h, mi, groups=None):
             # ("N uhr morgens" is not used: "morgen" inside it is also "tomorrow", a homograph of the lexicon)
             for f in ("%d uhr vormittags", "%d:00 in the morning", "at %d in the morning", "%d o'clock in the morning"):
                 out.append(("clock:h uhr POD", f % h, C))
+    if h == 12 and mi == 30:
+        for f in ("halb eins nachmittags", "nachmittags um halb eins", "halb 1 nachmittags"):
+            out.append(("clock:spoken + POD", f, C))
+    if h == 12 and mi == 45:
+        for f in ("quarter to one in the afternoon", "viertel vor 1 nachmittags"):
+            out.append(("clock:spoken + POD", f, C))
     if h == 0 and mi != 0:
         for f in ("0:%02d at night", "00:%02d abends", "0:%02d uhr nachts"):
             out.append(("clock:h:mm POD", f % mi, C))
